@@ -70,7 +70,7 @@ CLAIMED = {
              "exception), pruning on or off: every call returns the same outcome in both worlds and they end in the same database, root "
              "and counts (Free.history_lockstep); two specification subtleties were machine-found there (the view equals what ScratchDB "
              "reads only for caches with unique keys - view_is_what_is_read, cache_keys_unique_* - and the counts slot). "
-             "Tie: exact db, root and counts after every step, every exit kind and position, for the tree-carrying AND the tree-free world.",
+             "Tie: exact db, root and counts after every step, every exit kind and position, for the tree-carrying AND the tree-free world. Also stated directly on the tree-free transcription FWorld with NO run-level hypothesis (Free.batch_op_leaves_outer, Free.abort_restores: a block left by an exception restores the world exactly whatever was done inside; Free.commit_failure_keeps_outer; Free.commit_adopts_root).",
         technique="Lean 4 proof (invariants of the world executor) + correspondence check with fault injection",
         design_ref="6/C05"),
     "C06": dict(
@@ -198,7 +198,7 @@ CLAIMED = {
              "statements machine-refuted, counterexamples kept) - so the two executors stay equal along whole histories with withheld nodes. Tie: result or every exception field, state after the "
              "failure, retry loop run to convergence, inside and outside squash_changes; the raw-level set/delete, get and traverse "
              "are run on the same incomplete databases (reported node, consumed nibbles, result), and so is the tree-free executor on its "
-             "own copy of the damaged database (outcome, root, full database, counts after every attempt of the retry loop).",
+             "own copy of the damaged database (outcome, root, full database, counts after every attempt of the retry loop). Whole histories in which node bodies disappear from the database and are supplied again between the calls: the tree-free executor and the tree-carrying one return the same outcome at every call and reach the same state, the partial-consistency invariant is kept, and a call that raises MissingTrieNode changed nothing and names an absent node on the path (Free.beam_history_lockstep, beam_invariant_step, beam_failed_call_atomic).",
         technique="Lean 4 proof (event-order invariant ReadsFirst, executor case analysis) + correspondence check with node removal",
         design_ref="6/C07"),
     "C12": dict(
